@@ -157,10 +157,40 @@ func genScalars(t *rapid.T, label string) Scalars {
 	}
 }
 
+var clusterBases = []int64{9007199254740992, 9007199254740993, 9223372036854775805, 4611686018427387904, -9007199254740993, -9223372036854775806, 2147483647, 4294967296, 0, 100, 36028797018963968, 18014398509481985}
+
+// cluster makes the 64-bit wide cells of s near-equal (base + small delta): comparisons and
+// differences between different fields, kinds and signednesses then sit exactly on the
+// boundaries where float64 rounding, signedness and width matter.
+func cluster(t *rapid.T, label string, s *Scalars, base int64) {
+	d := func(l string) int64 { return int64(uni(t, label+l, -2, 2)) }
+	s.I = int(base + d("I"))
+	s.I64 = base + d("I64")
+	if base > 2 {
+		s.U = uint(base + d("U"))
+		s.U64 = uint64(base + d("U64"))
+		if pct(t, label+"hi", 25) {
+			// the same cluster shifted into the upper half of uint64
+			s.U64 = uint64(base+d("U64b")) + 9223372036854775808
+			s.U = uint(uint64(base+d("Ub")) + 9223372036854775808)
+		}
+	}
+	if pct(t, label+"F", 50) {
+		s.F64 = float64(base + d("F64"))
+	}
+}
+
 func genExprWorld(t *rapid.T) ExprWorld {
 	w := ExprWorld{G: genScalars(t, "g."), P: Host{Scalars: genScalars(t, "p."), In: genScalars(t, "p.in.")}}
 	s := genScalars(t, "p.pin.")
 	w.P.PIn = &s
+	if pct(t, "cluster", 40) {
+		base := clusterBases[uni(t, "cluster_base", 0, len(clusterBases)-1)]
+		cluster(t, "cl.g.", &w.G, base)
+		cluster(t, "cl.p.", &w.P.Scalars, base)
+		cluster(t, "cl.in.", &w.P.In, base)
+		cluster(t, "cl.pin.", w.P.PIn, base)
+	}
 	return w
 }
 
@@ -275,6 +305,26 @@ func cloneExpr(e *dsl.Expr) *dsl.Expr {
 	return &c
 }
 
+// wideAtom is an injected 64-bit wide integer cell (platform int/uint or int64/uint64),
+// occasionally a float64 or a literal.
+func (g *exprGen) wideAtom() *dsl.Expr {
+	if g.custom != nil {
+		return g.atom(g.numClass("wc"))
+	}
+	f := []string{"I", "I64", "U", "U64", "I", "U", "F64"}[uni(g.t, g.lbl("wide"), 0, 6)]
+	switch uni(g.t, g.lbl("wpath"), 0, 5) {
+	case 0, 1:
+		return dsl.Var("g" + f)
+	case 2:
+		return dsl.Var("P." + f)
+	case 3:
+		return dsl.Var("V." + f)
+	case 4:
+		return dsl.Var("P.In." + f)
+	}
+	return dsl.Var("P.PIn." + f)
+}
+
 var arithOps = []string{"+", "-", "*", "/"}
 var cmpOps = []string{"==", "!=", "<", ">", "<=", ">="}
 
@@ -359,7 +409,11 @@ func (g *exprGen) expr(class byte, depth int) *dsl.Expr {
 	case 's':
 		e = dsl.Bin("+", g.expr('s', d), g.expr('s', d))
 	default:
-		switch uni(t, g.lbl("bkind"), 0, 9) {
+		switch uni(t, g.lbl("bkind"), 0, 11) {
+		case 10, 11:
+			// two atoms compared directly (fields of different kind / signedness / width)
+			op := cmpOps[uni(t, g.lbl("cmp"), 0, 5)]
+			e = dsl.Bin(op, g.wideAtom(), g.wideAtom())
 		case 0, 1, 2, 3:
 			op := cmpOps[uni(t, g.lbl("cmp"), 0, 5)]
 			l := g.expr(g.numClass("lc"), d)
